@@ -185,9 +185,45 @@ def generate(seed, tier):
         t = gen_hdd.Truth(r)
         cases.append({"id": f"h{i}", "fam": "hdd", "recipe": r, "align": rng.choice([8192] * 5 + [512, 4096, 65536]),
                       "queries": [["s", 0, 2]] + gen_hdd.gen_queries(rng, t, 8 if tier == "quick" else 14)})
+    cases += samename_cases(seed, tier)
     nl = 100 if tier == "quick" else 2500
     for i in range(nl):
         cases.append({"id": f"l{i}", "fam": "line", "recipe": {"lines": gen_lines(rng, 200), "texts": [gen_desc_text(rng) for _ in range(40)], "specs": gen_specs(rng, 60)}, "align": 8192, "queries": []})
+    return cases
+
+
+def samename_cases(seed, tier, tag="hs"):
+    """directed family (own random stream, the same number of cases in every run): Parallels descriptors with 2..4 storages whose
+    images have the SAME file name in every storage and differ only by their directory — every layout of gen_hdd.LAYOUTS (relative
+    sub directories, absolute existing paths, absolute paths of a moved disk that _open_image relocates) x 2 / 3 / 4 storages,
+    snapshot chains of depth 1..3 (several image GUIDs per storage, each of them again with the same name in every storage),
+    storages of pairwise different sizes and contents. Requests: across every storage boundary, fully inside every storage (the
+    later ones in particular), each storage exactly, everything, plus the usual mix. Truth = concatenation of each storage's own
+    image chain (gen_hdd.Truth: the writer knows which file it put where)."""
+    rng = random.Random(f"C10samename/{seed}/{tier}")
+    cases = []
+    k = 0
+    for rep in range(1 if tier == "quick" else 4):
+        for layout in gen_hdd.LAYOUTS:
+            for nst in (2, 3, 4):
+                depth = 1 + (k + rep) % 3
+                for _ in range(30):
+                    r = gen_hdd.gen_recipe(rng, tier, max_depth=depth, min_depth=depth, nst=nst, disorder=0.6)
+                    if len({s["end"] - s["start"] for s in r["storages"]}) == nst:
+                        break
+                gen_hdd.relocate(r, layout, base=rng.choice(["image", "disk.hdd.0", "harddisk"]))
+                t = gen_hdd.Truth(r)
+                qs = [["s", 0, 2], ["o", 0, t.size]]
+                for j, s in enumerate(r["storages"]):
+                    a, e = s["start"] * 512, s["end"] * 512
+                    qs.append(["o", a, e - a])                                              # the storage exactly
+                    qs.append(["o", a + min(1, e - a - 1), max(1, (e - a) // 2)])           # fully inside
+                    if j:
+                        qs.append(["o", max(0, a - rng.choice([1, 512, 700])), rng.choice([2, 513, 1400, 9000])])   # across the boundary
+                        qs.append(["o", e - min(e - a, rng.choice([1, 512, 513])), 100000])      # the end of a later storage and beyond
+                cases.append({"id": f"{tag}{k}", "fam": "hdd", "recipe": r, "align": rng.choice([8192] * 3 + [512, 4096, 65536]),
+                              "queries": qs + gen_hdd.gen_queries(rng, t, 4 if tier == "quick" else 8)})
+                k += 1
     return cases
 
 
@@ -248,7 +284,7 @@ def build(case):
         names = "+".join(("raw=" + ids[n[4:]]) if n.startswith("raw=") else ids[n] for n in names.split("+"))
         toks.append(f"{a}:{e}:{kind}:{names}")
     b = Built({ids[n]: im for n, im in t.files.items()}, truth,
-              {"branches": ["hdd"] + sorted({l[0] for _, ls in t.st for l in ls}), "crosses": crosses, "in_scope": True, "n": len(r["storages"]), "tokens": toks})
+              {"branches": ["hdd"] + sorted({l[0] for _, ls in t.st for l in ls}) + ([f"hdd_samename:{r['layout']}", f"hdd_depth{len(r['chain'])}"] if r.get("layout") else []), "crosses": crosses, "in_scope": True, "n": len(r["storages"]), "tokens": toks})
     b.t = t
     return b
 
